@@ -9,6 +9,8 @@ use crate::mk::*;
 use crate::par::for_each_index;
 use crate::rng::{hash64, Rng};
 use chumsky::error::Rich;
+use chumsky::{IterParser, Parser};
+use crate::val::Val;
 use serde_json::json;
 
 fn one<'s, I: Kind<'s>>(acc: &mut Acc, g: &G, p: &BP<'s, I, Rich<'s, char, I::Span>>, buf: &'s Buf, enumerated: bool)
@@ -51,6 +53,100 @@ where
         acc.samples.push(json!({"grammar": g.show(), "input": buf.text, "kind": I::NAME, "accepted": true, "model_backtracks": m.stats.backtracks, "output": r.out.as_ref().map(|v| v.show())}));
     }
     acc.sample(50_000, || json!({"grammar": g.show(), "input": buf.text, "kind": I::NAME, "accepted": m.out.is_some(), "output": r.out.as_ref().map(|v| v.show())}));
+}
+
+// -----------------------------------------------------------------------------------------------
+// Statically typed (unboxed, zero-sized, inlined) formulations: the same combinators without `boxed()`
+// between them, i.e. the monomorphised `go` of every combinator over concrete children.
+
+type ESX<'s> = Ex<Rich<'s, char>>;
+
+/// `st!((op args..))` builds the AST node and the statically typed parser side by side, with the
+/// builder's value conventions (mk.rs, `wrap: false`).
+macro_rules! st {
+    ((just $c:literal)) => { (G::just($c), chumsky::prelude::just::<_, &str, ESX>($c).map(Val::Tok)) };
+    ((seq $s:literal)) => { (G::just_seq($s), chumsky::prelude::just::<_, &str, ESX>($s).map(|s: &str| Val::Str(s.to_string()))) };
+    ((any)) => { (G::leaf(Op::Any), chumsky::prelude::any::<&str, ESX>().map(Val::Tok)) };
+    ((one_of $s:literal)) => { (G::set(Op::OneOf, $s), chumsky::prelude::one_of::<_, &str, ESX>($s).map(Val::Tok)) };
+    ((none_of $s:literal)) => { (G::set(Op::NoneOf, $s), chumsky::prelude::none_of::<_, &str, ESX>($s).map(Val::Tok)) };
+    ((end)) => { (G::leaf(Op::End), chumsky::prelude::end::<&str, ESX>().to(Val::Unit)) };
+    ((empty)) => { (G::leaf(Op::Empty), chumsky::prelude::empty::<&str, ESX>().to(Val::Unit)) };
+    ((then $a:tt $b:tt)) => {{ let (ga, pa) = st!($a); let (gb, pb) = st!($b); (G::bin(Op::Then, ga, gb), pa.then(pb).map(|(a, b)| Val::pair(a, b))) }};
+    ((ignore_then $a:tt $b:tt)) => {{ let (ga, pa) = st!($a); let (gb, pb) = st!($b); (G::bin(Op::IgnoreThen, ga, gb), pa.ignore_then(pb)) }};
+    ((then_ignore $a:tt $b:tt)) => {{ let (ga, pa) = st!($a); let (gb, pb) = st!($b); (G::bin(Op::ThenIgnore, ga, gb), pa.then_ignore(pb)) }};
+    ((or $a:tt $b:tt)) => {{ let (ga, pa) = st!($a); let (gb, pb) = st!($b); (G::bin(Op::Or, ga, gb), pa.or(pb)) }};
+    ((and_is $a:tt $b:tt)) => {{ let (ga, pa) = st!($a); let (gb, pb) = st!($b); (G::bin(Op::AndIs, ga, gb), pa.and_is(pb)) }};
+    ((padded $a:tt $b:tt)) => {{ let (ga, pa) = st!($a); let (gb, pb) = st!($b); (G::bin(Op::Padded, ga, gb), pa.padded_by(pb)) }};
+    ((delim $a:tt $l:tt $r:tt)) => {{ let (ga, pa) = st!($a); let (gl, pl) = st!($l); let (gr, pr) = st!($r); (G::new(Op::Delim, vec![ga, gl, gr]), pa.delimited_by(pl, pr)) }};
+    ((choice3 $a:tt $b:tt $c:tt)) => {{ let (ga, pa) = st!($a); let (gb, pb) = st!($b); let (gc, pc) = st!($c); (G::new(Op::ChoiceTup, vec![ga, gb, gc]), chumsky::prelude::choice((pa, pb, pc))) }};
+    ((group3 $a:tt $b:tt $c:tt)) => {{ let (ga, pa) = st!($a); let (gb, pb) = st!($b); let (gc, pc) = st!($c); (G::new(Op::Group, vec![ga, gb, gc]), chumsky::prelude::group((pa, pb, pc)).map(|(a, b, c)| Val::Seq(vec![a, b, c]))) }};
+    ((or_not $a:tt)) => {{ let (ga, pa) = st!($a); (G::un(Op::OrNot, ga), pa.or_not().map(|o: Option<Val>| Val::Opt(o.map(Box::new)))) }};
+    ((not $a:tt)) => {{ let (ga, pa) = st!($a); (G::un(Op::Not, ga), pa.not().to(Val::Unit)) }};
+    ((rewind $a:tt)) => {{ let (ga, pa) = st!($a); (G::un(Op::Rewind, ga), pa.rewind()) }};
+    ((ignored $a:tt)) => {{ let (ga, pa) = st!($a); (G::un(Op::Ignored, ga), pa.ignored().to(Val::Unit)) }};
+    ((rep $a:tt)) => {{ let (ga, pa) = st!($a); (G::rep(ga, 0, None, Flav::Vec), pa.repeated().collect::<Vec<Val>>().map(Val::Seq)) }};
+    ((rep1 $a:tt)) => {{ let (ga, pa) = st!($a); (G::rep(ga, 1, None, Flav::Vec), pa.repeated().at_least(1).collect::<Vec<Val>>().map(Val::Seq)) }};
+    ((rep_unit $a:tt)) => {{ let (ga, pa) = st!($a); (G::rep(ga, 0, None, Flav::Unit), pa.repeated().to(Val::Unit)) }};
+    ((sep $a:tt $b:tt)) => {{ let (ga, pa) = st!($a); let (gb, pb) = st!($b); (G::bin(Op::Sep, ga, gb).with(|p| p.flav = Flav::Vec), pa.separated_by(pb).collect::<Vec<Val>>().map(Val::Seq)) }};
+}
+
+fn static_case<'s, P: chumsky::Parser<'s, &'s str, Val, ESX<'s>>>(acc: &mut Acc, g: &G, p: &P, bufs: &'s [Buf]) {
+    for buf in bufs {
+        let m = crate::model::run_opts(g, &buf.chars, crate::model::St::fresh(0), MODEL_BUDGET, false);
+        if m.pathological {
+            continue;
+        }
+        for check in [false, true] {
+            acc.evaluations += 1;
+            acc.count("static_formulation_cases", 1);
+            let r = guarded(|| if check { run_check(p, buf, 0, STEP_BUDGET) } else { run_parse(p, buf, 0, STEP_BUDGET) });
+            let r = match settle(acc, "C01", g, &buf.chars, "str (statically typed)", &m, r) {
+                Some(r) => r,
+                None => continue,
+            };
+            if m.stats.backtracks > 0 {
+                acc.nontrivial_enum += 1;
+            }
+            if let Some(d) = judge::<&str>(buf, &m, &r, What { value: !check, state: true, primary: true, no_found: true, ..Default::default() }) {
+                if !(m.stats.ambiguous_a1 || m.stats.ambiguous_a2) {
+                    acc.viol(Viol::case(format!("C01: (statically typed formulation, {}) {}", if check { "check" } else { "parse" }, d), g, &buf.chars, json!({"kind": "str", "static": true})));
+                }
+            }
+        }
+    }
+}
+
+fn static_family<'s>(acc: &mut Acc, bufs: &'s [Buf]) {
+    use crate::val::Val;
+    macro_rules! run {
+        ($($t:tt),* $(,)?) => {
+            $( { let (g, p) = st!($t); let g = g.numbered(); static_case(acc, &g, &p, bufs); acc.count("static_formulations", 1); } )*
+        };
+    }
+    run![
+        (then (just 'a') (or_not (any))),
+        (or (then (just 'a') (just 'b')) (just 'a')),
+        (then (or (seq "ab") (just 'a')) (just 'b')),
+        (then (not (just 'a')) (any)),
+        (then (and_is (any) (none_of "a")) (rep (any))),
+        (then (rewind (seq "ab")) (then (any) (any))),
+        (delim (rep (one_of "ab")) (just 'a') (just 'b')),
+        (padded (just 'b') (rep (just 'a'))),
+        (choice3 (then (just 'a') (just 'a')) (then (just 'a') (just 'b')) (any)),
+        (group3 (or_not (just 'a')) (rep (just 'b')) (or_not (just 'é'))),
+        (sep (one_of "ab") (just 'é')),
+        (then (rep (then (just 'a') (just 'b'))) (or_not (just 'a'))),
+        (ignore_then (rep1 (just 'a')) (then_ignore (any) (end))),
+        (or (then (rep (just 'a')) (just 'b')) (rep (any))),
+        (then (or_not (then (just 'a') (just 'b'))) (then (just 'a') (or_not (just 'é')))),
+        (then (rep_unit (or (seq "ab") (just 'a'))) (or (end) (just 'b'))),
+        (or (and_is (seq "ab") (then (any) (not (just 'a')))) (then (any) (rep (any)))),
+        (then (ignored (rep (none_of "b"))) (or_not (then (just 'b') (rewind (or_not (any)))))),
+        (choice3 (delim (just 'a') (just 'a') (just 'a')) (padded (just 'a') (or_not (just 'a'))) (empty)),
+        (then (sep (then (just 'a') (or_not (just 'b'))) (just 'é')) (or_not (just 'é'))),
+        (then (not (then (just 'a') (just 'a'))) (rep (or (then (just 'a') (just 'b')) (any)))),
+        (then_ignore (rep (choice3 (seq "aa") (seq "ab") (just 'b'))) (or (just 'a') (empty))),
+    ];
 }
 
 pub fn run(cx: &RunCtx) -> i32 {
@@ -102,12 +198,18 @@ pub fn run(cx: &RunCtx) -> i32 {
     acc.merge(racc);
     acc.count("random_grammars", n_rand as u64);
 
+    // statically typed formulations on all inputs up to one token longer
+    let st_bufs: Vec<Buf> = all_inputs(&alpha, max_len + 1).iter().map(|w| Buf::new(w)).collect();
+    let mut sacc = Acc::default();
+    static_family(&mut sacc, &st_bufs);
+    acc.merge(sacc);
+
     finish(
         cx,
         acc,
         Finish {
             rule: format!(
-                "every well-formed grammar with <= {size} nodes over the K01 basis (12 leaves incl. a probe, 24 constructors) x every input of length <= {max_len} over {{a,b,é}} on &str (every 4th grammar also on &[char] and Stream for every 7th input), plus {n_rand} seeded random grammars of {}..14 nodes x 6 random inputs (<= 12 tokens over a 7-character alphabet with 2- and 4-byte characters and a combining mark); a case is non-trivial when the reference evaluation backtracked at least once or a filter/try_map rejected; enumerated cases are distinct by construction, random ones are deduplicated by hash",
+                "every well-formed grammar with <= {size} nodes over the K01 basis (12 leaves incl. a probe, 24 constructors) x every input of length <= {max_len} over {{a,b,é}} on &str (every 4th grammar also on &[char] and Stream for every 7th input), plus {n_rand} seeded random grammars of {}..14 nodes x 6 random inputs (<= 12 tokens over a 7-character alphabet with 2- and 4-byte characters and a combining mark); 22 hand-written statically typed (unboxed) formulations built side by side with their AST x every input <= max+1, parse and check (acceptance, output, inspector state, primary error against the model); a case is non-trivial when the reference evaluation backtracked at least once or a filter/try_map rejected; enumerated cases are distinct by construction, random ones are deduplicated by hash",
                 size + 1
             ),
             exhaustive: false,
@@ -117,7 +219,7 @@ pub fn run(cx: &RunCtx) -> i32 {
                 "A1/A2 (separator at at_most / lone leading separator) compared leniently and counted as ambiguous".into(),
                 "observation through map_with spans at every node, custom() probes and a snapshot Inspector; no hooks in the library".into(),
             ],
-            require: vec![("backtracks_after_consuming".into(), 100), ("rejecting_filters".into(), 100), ("accepted".into(), 100)],
+            require: vec![("backtracks_after_consuming".into(), 100), ("rejecting_filters".into(), 100), ("accepted".into(), 100), ("static_formulation_cases".into(), 1000)],
             min_evaluations: 10_000,
         },
     )
